@@ -5,9 +5,18 @@
 open Model
 open Sfio
 
-let rec pos_to_float = function XH -> 1.0 | XO p -> 2.0 *. pos_to_float p | XI p -> 2.0 *. pos_to_float p +. 1.0
-let z_to_float = function Z0 -> 0.0 | Zpos p -> pos_to_float p | Zneg p -> -. pos_to_float p
-let q_to_float (x : q) : float = let x = qred x in z_to_float x.qnum /. pos_to_float x.qden
+(* printing only: (mantissa, binary exponent) so that huge numerators/denominators do not overflow *)
+let rec pos_to_me = function
+  | XH -> (1.0, 0)
+  | XO p -> let (m, e) = pos_to_me p in let m = 2.0 *. m in if m > 1e200 then (m /. 1.1579208923731620e77, e + 256) else (m, e)
+  | XI p -> let (m, e) = pos_to_me p in let m = 2.0 *. m +. (if e = 0 then 1.0 else 0.0) in if m > 1e200 then (m /. 1.1579208923731620e77, e + 256) else (m, e)
+let q_to_float (x : q) : float =
+  let x = qred x in
+  let (dm, de) = pos_to_me x.qden in
+  match x.qnum with
+  | Z0 -> 0.0
+  | Zpos p -> let (nm, ne) = pos_to_me p in Float.ldexp (nm /. dm) (ne - de)
+  | Zneg p -> let (nm, ne) = pos_to_me p in -. Float.ldexp (nm /. dm) (ne - de)
 let qs (x : q) : string = Printf.sprintf "%.17g" (q_to_float x)
 let q_frac (a : int) (b : int) : q =
   { qnum = (if a = 0 then Z0 else if a > 0 then Zpos (pos_of_int a) else Zneg (pos_of_int (-a))); qden = pos_of_int b }
@@ -63,7 +72,9 @@ let () =
       let f = split_tabs line in
       let id = f.(0) and cls = f.(1) in
       let flags = String.split_on_char ',' f.(2) in
-      let lattice = List.mem "lattice" flags and valid = List.mem "valid" flags in
+      let lattice = List.mem "lattice" flags and sliver = List.mem "sliver" flags in
+      (* sliver: valid, but without clearance; only the clauses that need none are judged *)
+      let valid = List.mem "valid" flags && not sliver in
       incr cases;
       count ("class_" ^ cls);
       let failc kind name detail = fail id kind name (trunc detail) in
@@ -95,12 +106,22 @@ let () =
         if valid then begin
           if not (geom_wf g) then failc "CORR" "valid_but_not_wf" gd;
           if not (dim_clause g gb) then failc "SPEC" "boundary_dim" (Printf.sprintf "boundary=%s input=%s" f.(4) gd);
+          (* a collection's boundary is the collection of its members' NON-EMPTY boundaries *)
+          (match g, gb with
+           | GColl _, GColl (_, ms) ->
+             if not (is_empty g) && List.exists is_empty ms then
+               failc "SPEC" "collection_boundary_has_empty_member" (Printf.sprintf "boundary=%s input=%s" f.(4) gd)
+           | GColl _, _ -> failc "SPEC" "collection_boundary_not_a_collection" (Printf.sprintf "boundary=%s input=%s" f.(4) gd)
+           | _ -> ());
           if not (is_empty gbb) then failc "SPEC" "boundary_of_boundary_nonempty" (Printf.sprintf "bb=%s input=%s" f.(6) gd);
-          if not (timed "spec_probes" (fun () -> probes_on_boundary g gb)) then failc "SPEC" "boundary_point_not_on_boundary" (Printf.sprintf "boundary=%s input=%s" f.(4) gd);
-          if int_of_nat (n_segments g) <= 24 then begin
-            count "spec_boundary_exact_evaluated";
-            if not (timed "spec_exact" (fun () -> boundary_exact g gb)) then failc "SPEC" "boundary_not_exactly_the_boundary_set" (Printf.sprintf "boundary=%s input=%s" f.(4) gd)
-          end else count "spec_boundary_exact_skipped_large";
+          if (not lattice) && members_overlap g then count "float_multipolygon_members_overlap_exactly_excluded"
+          else begin
+            if not (timed "spec_probes" (fun () -> probes_on_boundary g gb)) then failc "SPEC" "boundary_point_not_on_boundary" (Printf.sprintf "boundary=%s input=%s" f.(4) gd);
+            if int_of_nat (n_segments g) <= 24 then begin
+              count "spec_boundary_exact_evaluated";
+              if not (timed "spec_exact" (fun () -> boundary_exact g gb)) then failc "SPEC" "boundary_not_exactly_the_boundary_set" (Printf.sprintf "boundary=%s input=%s" f.(4) gd)
+            end else count "spec_boundary_exact_skipped_large"
+          end;
           count "spec_boundary_evaluated"
         end;
         (* ---------------------------------------------------------------- PointOnSurface *)
@@ -142,7 +163,11 @@ let () =
                      | GMPoly (_, ys) -> List.exists (fun y -> row_fragile y tol) ys
                      | _ -> false) (List.tl table)
                  | _ -> false) in
-              if fragile then count "float_row_decision_fragile_corr_skipped"
+              if sliver then begin
+                count "sliver_corr_skipped";
+                if not (pos_intersects x nd.gp) then failc "SPEC" (nm ("pos_empty_or_off_surface_" ^ kind_name x)) (d ())
+              end
+              else if fragile then count "float_row_decision_fragile_corr_skipped"
               else if not ok then failc "CORR" (nm ("pos_" ^ kind_name x)) (d ());
               if timed "model_pos" (fun () -> point_eqb (pos cen x) nd.gp) then count "pos_exactly_equal" else count "pos_within_tolerance";
               (match x with
@@ -155,6 +180,19 @@ let () =
                      | None -> ()))
                | _ -> ());
               if valid then begin
+                (* hypotheses of theorem pos_areal_interior on valid input: the decidable ones, and the
+                   nesting condition at the implementation's point *)
+                let polys = (match x with GPoly y -> [y] | GMPoly (_, ys) -> ys | _ -> []) in
+                List.iter (fun y ->
+                    if row_regular y then begin
+                      if row_hyps y then count "interior_theorem_hypotheses_hold"
+                      else failc "CORR" (nm "interior_theorem_hypotheses_fail_on_valid_polygon") (d ());
+                      (match x, point_xy nd.gp with
+                       | GPoly _, Some p ->
+                         if nesting_atb y p then count "interior_theorem_nesting_holds_at_point"
+                         else failc "CORR" (nm "interior_theorem_nesting_fails_on_valid_polygon") (d ())
+                       | _ -> ())
+                    end else if not (poly_empty y) then failc "CORR" (nm "valid_polygon_without_regular_row") (d ())) polys;
                 if not (timed "spec_pos" (fun () -> pos_ok x nd.gp)) then failc "SPEC" (nm ("pos_not_on_surface_" ^ kind_name x)) (d ());
                 count "spec_pos_evaluated"
               end) table
